@@ -1,6 +1,7 @@
 package rules
 
 import (
+	"go/token"
 	"go/types"
 
 	"golang.org/x/tools/go/ssa"
@@ -295,6 +296,38 @@ func c05flush(c *an.Ctx) {
 				}
 			}
 			c.Check(good, fn, "flushes "+typ+"."+f.Name(), fn.Pos(), "", typ+".flush does not write every message of "+typ+"."+f.Name()+" to the backend ("+why+"): those messages are lost by a graceful restart")
+			// the drain is reached on every path through flush (an early return may skip it only when this container is empty)
+			fld := f
+			isDrain := func(in ssa.Instruction, _ *an.PathState) bool {
+				switch x := in.(type) {
+				case *ssa.Range:
+					return isLoadOfField(x.X, fld)
+				case *ssa.Select:
+					for _, stt := range x.States {
+						if stt.Dir == types.RecvOnly && isLoadOfField(stt.Chan, fld) {
+							return true
+						}
+					}
+				}
+				return false
+			}
+			q := &an.PathQ{Fn: fn, StartEntry: true, Sink: an.IsReturn, Cut: isDrain,
+				CutEdge: func(e an.Edge, _ *an.PathState) bool {
+					for _, cmp := range an.CmpsOnEdge(e) {
+						if a := lenArgOf(cmp.X); a != nil && isLoadOfField(a, fld) {
+							if k, isC := an.ConstInt(cmp.Y); isC && k == 0 && (cmp.Op == token.EQL || cmp.Op == token.LEQ) {
+								return true
+							}
+						}
+					}
+					return false
+				}}
+			w, skipped := q.Find()
+			if skipped {
+				c.Bad(fn, "drain of "+typ+"."+f.Name()+" on every path", fn.Pos(), typ+".flush can return without draining "+typ+"."+f.Name()+" although it may be non-empty (an early return that does not test this container): its messages are lost by a graceful restart", w)
+			} else {
+				c.OK(fn, "drain of "+typ+"."+f.Name()+" on every path", fn.Pos(), "")
+			}
 		}
 	}
 }
